@@ -418,3 +418,15 @@ package secec
 //@   ensures result1 != nil ==> result0 == nil
 //@   modifies rdstate(osrand())
 //@   fresh result0
+//@
+//@ func buildASN1PublicKey
+//@   props C12 C18
+//@   trusted the cryptobyte.Builder continuation API is outside the engine's subset; the contract is RFC 5480 SubjectPublicKeyInfo: the fixed 23-byte header for id-ecPublicKey / secp256k1 followed by the uncompressed point
+//@   boundedcheck der_spki_build
+//@   ensures len(result) == 88 && derspki(result)
+//@   fresh result
+//@
+//@ func (*PublicKey).ASN1Bytes
+//@   props C12 C18
+//@   ensures len(result) == 88
+//@   fresh result
